@@ -1,0 +1,33 @@
+//! Verification hooks: re-exports of crate-private pure items for differential runs.
+//! Compiled only with `--cfg ntex_mqtt_verif`; nothing here changes behaviour.
+#![allow(missing_docs, clippy::missing_panics_doc)]
+
+use ntex_bytes::{BytePages, BytesMut};
+use ntex_codec::Decoder;
+
+use crate::error::DecodeError;
+
+/// `topic::is_valid`
+pub fn topic_is_valid(topic: &str) -> bool {
+    crate::topic::is_valid(topic)
+}
+
+/// `utils::decode_variable_length`
+pub fn decode_variable_length(src: &[u8]) -> Result<Option<(u32, usize)>, DecodeError> {
+    crate::utils::decode_variable_length(src)
+}
+
+/// `utils::write_variable_length`
+pub fn write_variable_length(len: u32, dst: &mut BytePages) {
+    crate::utils::write_variable_length(len, dst);
+}
+
+/// `version::VersionCodec::decode`: `Some(4)` / `Some(5)` for the protocol level
+pub fn sniff_version(src: &mut BytesMut) -> Result<Option<u8>, DecodeError> {
+    crate::version::VersionCodec.decode(src).map(|v| {
+        v.map(|v| match v {
+            crate::version::ProtocolVersion::MQTT3 => 4,
+            crate::version::ProtocolVersion::MQTT5 => 5,
+        })
+    })
+}
